@@ -22,7 +22,7 @@
    and safe by the kernel (Exec.LocalProofs, vm_compute over a genuinely
    finite domain: Local.lstate with counters saturating at 2). *)
 From Coq Require Import ZArith List Bool.
-From RP Require Import Exec.Model Exec.Oracle Exec.Local Exec.LocalProofs Exec.Proj Exec.Proofs Exec.ExamProofs Exec.PollProofs.
+From RP Require Import Exec.Model Exec.Oracle Exec.Local Exec.LocalProofs Exec.Proj Exec.Proofs Exec.ExamProofs Exec.PollProofs Exec.HandlerProofs.
 Import ListNotations.
 Open Scope Z_scope.
 
@@ -83,6 +83,14 @@ Theorem C07_cancel_polled_clause_holds_in_model :
     run (init sc) sched = (s, tr) -> ok_cancel_polled (delivered sc) tr = true.
 Proof. exact model_cancel_polled. Qed.
 Print Assumptions C07_cancel_polled_clause_holds_in_model.
+
+(* the cancel handler looks up every uid of every request (clause
+   handler_examines_every_named_uid; see Props/C08.v) *)
+Theorem C07_handler_covers_clause_holds_in_model :
+  forall (sc : scenario) (sched : list choice) (s : state) (tr : list stepobs),
+    run (init sc) sched = (s, tr) -> ok_handler_covers sc tr (quiescent s) = true.
+Proof. exact model_handler_covers. Qed.
+Print Assumptions C07_handler_covers_clause_holds_in_model.
 
 (* the ownership argument: every run stays, for every delivered uid, inside the
    kernel-checked set of local states on which `Local.safe` holds (whoever
